@@ -128,7 +128,9 @@ CLAIMED = {
                      "C11_zip_pairs / C11_zip_all_delivered (the tuple with index m pairs the m-th items; no index twice; at quiescence exactly the indices below the shortest script), C11_amb_one_input (everything delivered is a prefix of ONE input's script), "
                      "C11_take_at_most (at most n items, one complete, nothing after it) - for every interleaving. Partial: concat and the composition operator+take are decided by the oracle on the implementation only; the order in which zip delivers tuples is not claimed "
                      "(the crate delivers tuples out of index order under some schedules - reproduced, C11_zip_out_of_order - which C11's text does not forbid). Tie: merge / zip / amb / concat / flat_map with 2-3 inputs emitting from different threads "
-                     "(hot subjects fed by threads, cold sources behind subscribe_on), with and without take(n), under DFS / random / PCT schedules; DFS log sets must lie within the extracted models' log sets."),
+                     "(hot subjects fed by threads, cold sources behind subscribe_on), with and without take(n), under DFS / random / PCT schedules; DFS log sets must lie within the extracted models' log sets. C11_amb_quiescent_delivers_winner: the amb model's script elements are signals of any kind (items and the terminal go through the same election); "
+                     "at quiescence exactly the winner's script has been delivered, terminal included - one complete when every input only completes, a loser's error stays out; tied by amb over inputs that all complete empty and over an input failing after another has won. "
+                     "The same operator value subscribed again, take(0) over empty and over emitting inputs."),
     "C12": dict(engine="coq-conc", design="DESIGN.md 6 C12",
                 technique="machine-checked proof in Coq (invariants of two transition systems at critical-section granularity - Subject observer map; Replay/Behavior history with positions - for any number of producers, any scripts, any interleaving) + correspondence under a deterministic scheduling runtime (per-producer script-position oracle on every observed schedule; implementation log set within the models' exhaustively explored log sets)",
                 text="Theorems C12_subject_gap_free / C12_subject_all_items: under every interleaving of any number of producers with a subscribing and an unsubscribing thread an observer of a Subject receives from each producer a block of "
